@@ -689,9 +689,18 @@ func TestEnumReps(t *testing.T) {
 				data, head = m("k", sh, "pad", true), jpx.Path{{K: "root"}, {K: "child", Key: "k"}}
 			}
 			enc := wx.Enc(data)
+			// every fragment is also followed by a filter that refers to $: the root has to travel
+			// with the evaluation through each kind of fragment (true for the real root only)
+			wtails := tails
+			switch wrap {
+			case "in-array":
+				wtails = append(append([][]jpx.Frag(nil), tails...), []jpx.Frag{{K: "filter", F: &jpx.Eq{Op: "eq", L: &jpx.Eq{Op: "get", P: jpx.Path{{K: "root"}, {K: "nth", N: 0}}}, R: &jpx.Eq{Op: "const", CK: "string", CS: "pad"}}}})
+			case "in-map":
+				wtails = append(append([][]jpx.Frag(nil), tails...), []jpx.Frag{{K: "filter", F: &jpx.Eq{Op: "eq", L: &jpx.Eq{Op: "get", P: jpx.Path{{K: "root"}, {K: "child", Key: "pad"}}}, R: &jpx.Eq{Op: "const", CK: "bool", CB: true}}}})
+			}
 			for _, f := range frags {
 				for _, desc := range []bool{false, true} {
-					for _, tail := range tails {
+					for _, tail := range wtails {
 						p := append(jpx.Path{}, head...)
 						if desc {
 							p = append(p, jpx.Frag{K: "descent"})
@@ -707,7 +716,7 @@ func TestEnumReps(t *testing.T) {
 		}
 	}
 	suite.AddExtra("representation_matrix_cases", int64(n))
-	suite.Extra("representation_matrix_exhaustive_over", fmt.Sprintf("%d container shapes x {root, in an array, in a map} x %d fragments x {direct, under a descent} x %d continuations x 5 representations", len(shapes), len(frags), len(tails)))
+	suite.Extra("representation_matrix_exhaustive_over", fmt.Sprintf("%d container shapes x {root, in an array, in a map} x %d fragments x {direct, under a descent} x %d continuations (one more, a filter that refers to $, below the root) x 5 representations", len(shapes), len(frags), len(tails)))
 }
 
 func TestPropRandom(t *testing.T) {
